@@ -353,6 +353,9 @@ func (w *World) client(p *CallPlan) *connect.Client[Msg, Msg] {
 	if cfg.SendComp != "" {
 		opts = append(opts, connect.WithSendCompression(cfg.SendComp))
 	}
+	if cfg.Broken {
+		opts = append(opts, connect.WithSendCompression("never-registered"))
+	}
 	if cfg.CompressMin > 0 {
 		opts = append(opts, connect.WithCompressMinBytes(cfg.CompressMin))
 	}
@@ -878,6 +881,9 @@ func (w *World) rec(o *CallObs, rcv bool, r OpRec) {
 }
 
 func (w *World) setFinal(o *CallObs, err error) {
+	if err != nil {
+		w.touchErr(o, err)
+	}
 	if !o.FinalSet {
 		o.Final, o.FinalSet = err, true
 		if err != nil {
